@@ -201,6 +201,9 @@ func (w *World) Load(s *State) {
 	w.fillCaches()
 }
 
+// FillCaches makes the informer indexers show the current state's caches.
+func (w *World) FillCaches() { w.fillCaches() }
+
 func (w *World) fillCaches() {
 	var l []interface{}
 	for _, k := range sortedKeys(w.S.Cache.Pods) {
